@@ -399,7 +399,7 @@ class TransformersUseCurrentState:
         else:
             tr = sp.ImageTransformer(t)
             # image: a ramp affine in the voxel index (multilinear interpolation reproduces it, whatever the sample points)
-            a0, a1, a2 = K.real("a0"), K.real("a1"), K.real("a2")
+            a0, a1, a2 = (K.real(n, draw=(Fraction(-1), Fraction(1))) for n in ("a0", "a1", "a2"))  # (O(1) witnesses: float32 validation)
             shp = tuple(int(n) for n in g.shape)
             ramp = np.empty((1, 1) + shp, dtype=object)
             for idx in np.ndindex(*shp):
